@@ -296,6 +296,7 @@ class StmtMixin:
         spec = self.find_loop_spec(node, fr)
         if spec is None and getattr(self, "lenient", False):
             spec = LoopSpec(frame={})   # lenient mode: abstract loop; locals and NEW objects are havocked, existing objects kept
+            spec.options_lenient_default = True
         itsv = self.ev(node.iter, fr)
         if itsv.meta and itsv.meta[0] == "lazyiter":
             d = itsv.meta[1]
@@ -399,7 +400,9 @@ class StmtMixin:
             go = st.decide(idx < n, "loop-continues")
         else:
             go = st.decide(self.truthy(self.ev(node.test, fr)), "while:" + ast.unparse(node.test)[:40])
-        self.reach.setdefault(f"{base}/body-end", 0)
+        track = not getattr(spec, "options_lenient_default", False)
+        if track:
+            self.reach.setdefault(f"{base}/body-end", 0)
         if go:
             variant0 = None
             if spec.decreases:
@@ -431,7 +434,8 @@ class StmtMixin:
                 if variant0 is not None:
                     v1 = IV(self.spec_eval(spec.decreases, fr).term)
                     st.check(f"{base}/variant-decreases", v1 < variant0, "decreases")
-                self.reach[f"{base}/body-end"] = self.reach.get(f"{base}/body-end", 0) + (1 if st.reachable() else 0)
+                if track:
+                    self.reach[f"{base}/body-end"] = self.reach.get(f"{base}/body-end", 0) + (1 if st.reachable() else 0)
                 raise PathEnd()
             except BreakEx:
                 fr.pre_stack.pop()
